@@ -85,6 +85,7 @@ func Alphabet(pc ref.PConfig) []ref.Cmd {
 	chunk("BDAT panic-c7 LAST (backend panics)", "panic-c7\r\nx", true)
 	chunk("BDAT earlypanic-c8 (backend panics inside the chunk)", "earlypanic-c8\r\nrest of chunk", false)
 	chunk("BDAT earlypanic-c9 LAST (backend panics inside the chunk)", "earlypanic-c9\r\nrest", true)
+	chunk("BDAT early-c10 (backend gives up right behind this chunk)", "early-c10\r\n", false)
 	chunk("BDAT 0 LAST", "", true)
 	chunk("BDAT early-c4 (fails inside the chunk)", "early-c4\r\nrest of chunk", false)
 	chunk("BDAT early-c5 LAST (fails inside the chunk)", "early-c5\r\nrest", true)
@@ -198,7 +199,7 @@ var saslMechs = []string{"ONE", "TWO", "THREE", "EMPTYCHAL", "BINCHAL"}
 // a fresh stateless backend.
 func serverFor(pc ref.PConfig) (h.Config, *h.Backend) {
 	cfg := h.Config{LMTP: pc.LMTP, MaxRecipients: pc.MaxRcpt, MaxMessageBytes: pc.MaxBytes, TLSAvailable: pc.TLSAvail,
-		AllowInsecureAuth: pc.AllowInsecureAuth, BinaryMIME: true, UTF8: true, DSN: true}
+		AllowInsecureAuth: pc.AllowInsecureAuth, BinaryMIME: true, UTF8: true, DSN: true, MaxLineLength: pc.LineMax}
 	be := &h.Backend{ByContent: true, Auth: pc.AuthBackend, LMTPSess: pc.LMTPBackend, Mechs: saslMechs, NewSASL: newSASL}
 	return cfg, be
 }
